@@ -298,6 +298,11 @@ fn srtcp_gcm_obligation<const N: usize>() {
 fn c05_unprotect_rtcp_gcm_32() {
     srtcp_gcm_obligation::<32>();
 }
+#[kani::proof]
+#[kani::unwind(40)]
+fn c05_unprotect_rtcp_gcm_28() {
+    srtcp_gcm_obligation::<28>();
+}
 
 // ---- SRTP (RTP), HMAC profiles
 fn srtp_hmac_obligation<const B: usize>(profile: SrtpProfile, ak: [u8; 20]) {
